@@ -20,7 +20,12 @@ of visit.  What holds for every input is proved here, at the level of the assign
 * if the optimum is unique (`countOptimal srcs = 1`) it stays unique and the solver returns the
   image of the original assignment (`unique_optimum_perm`, `unique_optimum_iso`);
 * with a tied optimum the returned assignment may really change with the order of the sources:
-  `tied_optimum_perm_witness`.
+  `tied_optimum_perm_witness`;
+* one linker step (`Model/Linker`): a permutation of the destinations `dsts` of a level renumbers
+  the destination ids of every candidate list (`candsOf_renumber`, `stepCands_perm_dsts`), so the
+  optimal cost of the step over all sources of the level is unchanged
+  (`step_cost_perm_dsts_partial`; the per-sub-net multiset form needs the equivariance of
+  `subnets`, not proved).
 
 The pairing function of the model is positional: `srcs.zip a` is the list of
 (source, chosen candidate) pairs of the assignment `a`.
@@ -562,3 +567,181 @@ theorem tied_optimum_perm_witness :
     simp [tieA, tieB] at this
 
 end TrackpyV.Assign
+
+/-! ## (e) one linker step: a permutation of the destinations of a level -/
+
+namespace TrackpyV.Assign
+
+/-- (c) only needs that the candidate SETS agree source by source -/
+theorem admIso_same_cands {srcs srcs' : List Src}
+    (h : List.Forall₂ (fun s s' : Src => ∀ c, c ∈ s ↔ c ∈ s') srcs srcs') :
+    AdmIso srcs srcs' id id := by
+  have e : ∀ a, Picks srcs a ↔ Picks srcs' a := by
+    induction h with
+    | nil => exact fun _ => Iff.rfl
+    | cons hp _ ih =>
+      intro a
+      cases a with
+      | nil => simp
+      | cons c cs => simp only [picks_cons_cons, hp c, ih cs]
+  have e' : ∀ a, Admissible srcs a ↔ Admissible srcs' a := by
+    intro a
+    unfold Admissible AdmTk
+    rw [e a]
+  exact ⟨h.length_eq, fun a ha => ⟨(e' a).mp ha, rfl, rfl⟩, fun a ha => ⟨(e' a).mpr ha, rfl, rfl⟩⟩
+
+end TrackpyV.Assign
+
+namespace TrackpyV.Linker
+open TrackpyV.Assign
+
+/-- `f` renumbers the positions of `l` into those of `l'` (`g` back) -/
+def IdxMap {α} (l l' : List α) (f g : Nat → Nat) : Prop :=
+  Function.LeftInverse g f ∧ ∀ j, l'[f j]? = l[j]?
+
+def consIdx (f : Nat → Nat) : Nat → Nat
+  | 0 => 0
+  | j + 1 => f j + 1
+
+def swapIdx : Nat → Nat
+  | 0 => 1
+  | 1 => 0
+  | j + 2 => j + 2
+
+theorem idxMap_cons {α} (x : α) {l l' : List α} {f g : Nat → Nat} (h : IdxMap l l' f g) :
+    IdxMap (x :: l) (x :: l') (consIdx f) (consIdx g) := by
+  refine ⟨?_, ?_⟩
+  · intro j; cases j with
+    | zero => rfl
+    | succ j => simp [consIdx, h.1 j]
+  · intro j; cases j with
+    | zero => rfl
+    | succ j => simpa [consIdx] using h.2 j
+
+theorem idxMap_swap {α} (x y : α) (l : List α) :
+    IdxMap (y :: x :: l) (x :: y :: l) swapIdx swapIdx := by
+  refine ⟨?_, ?_⟩
+  · intro j
+    match j with
+    | 0 => rfl
+    | 1 => rfl
+    | j + 2 => rfl
+  · intro j
+    match j with
+    | 0 => rfl
+    | 1 => rfl
+    | j + 2 => rfl
+
+/-- a permutation of a list is a renumbering of its positions, with an inverse -/
+theorem idxIso_perm {α} {l l' : List α} (hp : l.Perm l') :
+    ∃ f g, IdxMap l l' f g ∧ IdxMap l' l g f := by
+  induction hp with
+  | nil => exact ⟨id, id, ⟨fun _ => rfl, fun _ => rfl⟩, ⟨fun _ => rfl, fun _ => rfl⟩⟩
+  | cons x _ ih =>
+    obtain ⟨f, g, h1, h2⟩ := ih
+    exact ⟨_, _, idxMap_cons x h1, idxMap_cons x h2⟩
+  | swap x y l => exact ⟨_, _, idxMap_swap x y l, idxMap_swap y x l⟩
+  | trans _ _ ih1 ih2 =>
+    obtain ⟨f1, g1, a1, b1⟩ := ih1
+    obtain ⟨f2, g2, a2, b2⟩ := ih2
+    refine ⟨f2 ∘ f1, g1 ∘ g2, ⟨?_, ?_⟩, ⟨?_, ?_⟩⟩
+    · intro j; simp only [Function.comp]; rw [a2.1, a1.1]
+    · intro j; simp only [Function.comp]; rw [a2.2, a1.2]
+    · intro j; simp only [Function.comp]; rw [b1.1, b2.1]
+    · intro j; simp only [Function.comp]; rw [b1.2, b2.2]
+
+theorem some_mem_candsOf_iff (cfg : Cfg) (t : Int) (dsts : List Pos) (s : Source) (j c : Nat) :
+    (some j, c) ∈ candsOf cfg t dsts s ↔
+      ∃ q, dsts[j]? = some q ∧ c = dist2 cfg.w (view cfg t s) q ∧ c ≤ cfg.B := by
+  rw [candidate_iff_in_range]
+  constructor
+  · rintro ⟨hj, h1, h2⟩
+    exact ⟨dsts[j], by simp [hj], h1, h2⟩
+  · rintro ⟨q, hq, h1, h2⟩
+    obtain ⟨hj, rfl⟩ := List.getElem?_eq_some_iff.mp hq
+    exact ⟨hj, h1, h2⟩
+
+theorem none_mem_candsOf_iff (cfg : Cfg) (t : Int) (dsts : List Pos) (s : Source) (c : Nat) :
+    (none, c) ∈ candsOf cfg t dsts s ↔ c = cfg.B := by
+  constructor
+  · intro h
+    rcases mem_candsOfRow _ _ _ h with h0 | ⟨j, _, h0, _⟩
+    · exact (Prod.mk.inj h0).2
+    · cases h0
+  · rintro rfl; exact candsOf_hasNull cfg t dsts s
+
+/-- **glue.**  Renumbering the destinations of a level renames the destination ids in every
+candidate list, up to the order of candidates (of equal cost) -/
+theorem candsOf_renumber (cfg : Cfg) (t : Int) {dsts dsts' : List Pos} {f g : Nat → Nat}
+    (h : IdxMap dsts dsts' f g) (h' : IdxMap dsts' dsts g f) (s : Source) (c : Cand) :
+    c ∈ relabelS f (candsOf cfg t dsts s) ↔ c ∈ candsOf cfg t dsts' s := by
+  obtain ⟨d, k⟩ := c
+  simp only [relabelS, List.mem_map]
+  cases d with
+  | none =>
+    rw [none_mem_candsOf_iff]
+    constructor
+    · rintro ⟨⟨d0, k0⟩, hm, he⟩
+      cases d0 with
+      | none =>
+        simp only [relabelC, Option.map_none, Prod.mk.injEq, true_and] at he
+        subst he
+        exact (none_mem_candsOf_iff cfg t dsts s k0).mp hm
+      | some x => simp [relabelC] at he
+    · rintro rfl
+      exact ⟨(none, cfg.B), candsOf_hasNull cfg t dsts s, rfl⟩
+  | some j' =>
+    rw [some_mem_candsOf_iff]
+    constructor
+    · rintro ⟨⟨d0, k0⟩, hm, he⟩
+      cases d0 with
+      | none => simp [relabelC] at he
+      | some x =>
+        simp only [relabelC, Option.map_some, Prod.mk.injEq, Option.some.injEq] at he
+        obtain ⟨rfl, rfl⟩ := he
+        obtain ⟨q, hq, h1, h2⟩ := (some_mem_candsOf_iff cfg t dsts s x k0).mp hm
+        exact ⟨q, by rw [h.2 x]; exact hq, h1, h2⟩
+    · rintro ⟨q, hq, h1, h2⟩
+      refine ⟨(some (g j'), k), ?_, by simp [relabelC, h'.1 j']⟩
+      rw [some_mem_candsOf_iff]
+      exact ⟨q, by rw [h'.2 j']; exact hq, h1, h2⟩
+
+theorem allSorted_stepCands (cfg : Cfg) (st : State) (t : Int) (dsts : List Pos) :
+    AllSorted (stepCands cfg st t dsts) := by
+  intro s hs
+  simp only [stepCands, List.mem_map] at hs
+  obtain ⟨x, _, rfl⟩ := hs
+  exact candsOf_sorted cfg t dsts x
+
+/-- (e), glue at step level: the candidate lists of a step after a permutation of the level are
+those before it with renumbered destinations, up to the order of candidates inside a source;
+hence a cost-preserving bijection `relabelS f` of the admissible assignments of the whole level. -/
+theorem stepCands_perm_dsts (cfg : Cfg) (st : State) (t : Int) (dsts dsts' : List Pos)
+    (hp : dsts.Perm dsts') :
+    ∃ f g, Function.LeftInverse g f ∧ (∀ j, dsts'[f j]? = dsts[j]?) ∧
+      AdmIso (stepCands cfg st t dsts) (stepCands cfg st t dsts') (relabelS f) (relabelS g) := by
+  obtain ⟨f, g, h, h'⟩ := idxIso_perm hp
+  refine ⟨f, g, h.1, h.2, ?_⟩
+  have h1 := admIso_relabel_of_leftInverse f g h.1 (stepCands cfg st t dsts)
+  have h2 : AdmIso ((stepCands cfg st t dsts).map (relabelS f)) (stepCands cfg st t dsts') id id := by
+    apply admIso_same_cands
+    simp only [stepCands, List.map_map]
+    rw [List.forall₂_map_left_iff, List.forall₂_map_right_iff]
+    exact List.forall₂_same.mpr (fun s _ c => candsOf_renumber cfg t h h' s c)
+  exact h1.trans h2
+
+-- FULL (not proved): the per-sub-net optimal costs of a step, as a multiset over
+-- `gSrcs (stepCands …) (stepGroups …)`, are invariant under permutations of `dsts`.
+/-- **(e), partial.**  The optimal cost of a linker step over ALL sources of the level together
+(which by `groups_compose_list` is what the per-sub-net optima add up to, plus `B` for every source
+without a real candidate) is invariant under permutations of the destinations `dsts` of the level.
+Missing for the per-sub-net multiset form: equivariance of `Model/Linker.subnets` (the fold of
+`addSource` that merges groups) under a renumbering of the destinations — the groups come out in
+another order, with their sources and destinations listed in another order. -/
+theorem step_cost_perm_dsts_partial (cfg : Cfg) (st : State) (t : Int) (dsts dsts' : List Pos)
+    (hp : dsts.Perm dsts') :
+    optCost (stepCands cfg st t dsts') = optCost (stepCands cfg st t dsts) := by
+  obtain ⟨f, g, _, _, h⟩ := stepCands_perm_dsts cfg st t dsts dsts' hp
+  exact h.optCost_eq (allSorted_stepCands cfg st t dsts) (allSorted_stepCands cfg st t dsts')
+
+end TrackpyV.Linker
